@@ -28,11 +28,12 @@ BUILD = os.path.join(ROOT, "build")
 EVID = os.path.join(ROOT, "evidence")
 REPLAYS = os.path.join(ROOT, "replays")
 KNOWN = os.path.join(ROOT, "KNOWN_FINDINGS.txt")
-TBBDRV = os.path.join(LEAN, ".lake", "build", "bin", "tbbdrv")
 ALLOWED_AXIOMS = {"propext", "Classical.choice", "Quot.sound"}
 NCPU = os.cpu_count() or 4
 
 CXX = os.environ.get("CXX", "g++")
+SHIM_FLAGS = ["-include", os.path.join(ROOT, "harness/shim/prelude.h"), "-I" + os.path.join(ROOT, "harness/shim"), "-pthread"]
+SHIM_SRC = "harness/shim/verif_sched.cpp"
 # flags that match how /repo builds libtbb (see _build/build.ninja), minus LTO
 TBB_INC = ["-I" + os.path.join(REPO, "include")]
 TBB_SRC_INC = ["-I" + os.path.join(REPO, "src")]
@@ -251,6 +252,17 @@ def _parse_depfile(p):
 
 def _cxx_object(outdir, src, flags, timeout):
     """Compile one translation unit; re-use the object iff command and all dependencies are unchanged."""
+    if os.path.basename(src) == "verif_sched.cpp":
+        # the E-SHIM runtime itself is never compiled with the atomic-renaming prelude or sanitizers
+        nf, skip = [], False
+        for f in flags:
+            if skip:
+                skip = False
+            elif f == "-include":
+                skip = True
+            elif not f.startswith("-fsanitize") and not f.startswith("-fno-sanitize"):
+                nf.append(f)
+        flags = nf
     tag = hashlib.sha1((src + " " + " ".join(flags)).encode()).hexdigest()[:12]
     obj = os.path.join(outdir, os.path.basename(src) + "." + tag + ".o")
     cmd = [CXX] + STD + list(flags) + TBB_INC + ["-c", src, "-o", obj, "-MD", "-MF", obj + ".d"]
@@ -320,10 +332,12 @@ def ensure_repo_built(targets=("tbb", "tbbmalloc"), timeout=3600):
 
 
 def drv(model, text, timeout=600):
-    """Feed `text` (lines) to the Lean model driver; returns list of output lines."""
-    rc, out, err = sh([TBBDRV, model], input=text, timeout=timeout)
+    """Feed `text` (lines) to the Lean model driver `model` (e.g. "c11" or "c11st": the executable is
+    drv_<first three characters>, the model name selects the driver inside it); returns output lines."""
+    exe = os.path.join(LEAN, ".lake", "build", "bin", "drv_" + model[:3])
+    rc, out, err = sh([exe, model], input=text, timeout=timeout)
     if rc != 0:
-        raise BuildError("tbbdrv %s failed rc=%d: %s" % (model, rc, err[-1000:]))
+        raise BuildError("%s %s failed rc=%d: %s" % (exe, model, rc, err[-1000:]))
     return out.split("\n")[:-1] if out.endswith("\n") else out.split("\n")
 
 
@@ -369,7 +383,7 @@ class Check:
         self.extra = {}
         self.counterexamples = []      # dicts: key, what, replay (object)
         self.traces_validated = 0
-        self.checker_cmd = "cd lean && lake build TbbVerif.Props.%s tbbdrv && lake env lean build/%s/Audit.lean" % (pid, pid)
+        self.checker_cmd = "cd lean && lake build TbbVerif.Props.%s drv_%s && lake env lean ../build/%s/Audit.lean" % (pid, pid.lower(), pid)
 
     # -- obligations ----------------------------------------------------------------------------
     def oblige(self, name, kind, ok, detail=""):
@@ -401,7 +415,7 @@ class Check:
     # -- the standard Lean stage ----------------------------------------------------------------
     def lean_stage(self, extra_targets=()):
         pid = self.pid
-        ok, logtext, dt = lake_build(["TbbVerif.Props." + pid, "tbbdrv"] + list(extra_targets))
+        ok, logtext, dt = lake_build(["TbbVerif.Props." + pid, "drv_" + pid.lower()] + list(extra_targets))
         self.extra["lake_build_s"] = round(dt, 1)
         ns, names = prop_theorems(pid)
         if not ok:
